@@ -23,11 +23,15 @@ func (k Keeper) ClaimVesting(ctx sdk.Context, msg *types.MsgClaimVesting) (*type
 	newClaims := sdk.Coins{}
 	var updatedVestingTokens []*types.VestingTokens
 	for _, vesting := range commitments.VestingTokens {
-		vestedSoFar := vesting.VestedSoFar(ctx)                         // tokens unlocked
-		newClaim := vestedSoFar.Sub(vesting.ClaimedAmount)              // tokens to mint or transfer
-		newClaims = newClaims.Add(sdk.NewCoin(vesting.Denom, newClaim)) // adding coin to mint or transfer
-		vesting.ClaimedAmount = vestedSoFar                             // updating claimed amount
-		if !vesting.ClaimedAmount.Equal(vesting.TotalAmount) {          // if ClaimedAmount == TotalAmount, it would mean all tokens has been claimed and no need to keep the vesting tokens
+		vestedSoFar := vesting.VestedSoFar(ctx) // tokens unlocked
+		// after a cancel reduced the total, the schedule on the new total can be behind what was
+		// already claimed: nothing new is due for this vesting until the schedule catches up
+		if vestedSoFar.GT(vesting.ClaimedAmount) {
+			newClaim := vestedSoFar.Sub(vesting.ClaimedAmount)              // tokens to mint or transfer
+			newClaims = newClaims.Add(sdk.NewCoin(vesting.Denom, newClaim)) // adding coin to mint or transfer
+			vesting.ClaimedAmount = vestedSoFar                             // updating claimed amount
+		}
+		if !vesting.ClaimedAmount.Equal(vesting.TotalAmount) { // if ClaimedAmount == TotalAmount, it would mean all tokens has been claimed and no need to keep the vesting tokens
 			updatedVestingTokens = append(updatedVestingTokens, vesting)
 		}
 	}
